@@ -29,19 +29,22 @@ type Spec struct {
 	FDSelect    []int    // CID only: FD index per glyph
 	// FDSelectFormat is 0 or 3 (CID only).
 	FDSelectFormat int
+	// IndexOffSize, when 1..4, is the offSize of every INDEX (raised where
+	// the data needs more); 0 = the smallest possible.
+	IndexOffSize int
 	// Gap is a number of filler bytes written between the Private DICTs and
 	// the local Subrs INDEXes, so that "offset relative to the Private DICT"
 	// and "absolute offset" differ in more than a constant.
 	Gap int
 }
 
-// AppendIndex appends an INDEX.
+// AppendIndex appends an INDEX with the smallest possible offSize.
 func AppendIndex(buf []byte, items [][]byte) []byte {
-	n := len(items)
-	buf = append(buf, byte(n>>8), byte(n))
-	if n == 0 {
-		return buf
-	}
+	return AppendIndexOffSize(buf, items, 0)
+}
+
+// IndexOffSize returns the offSize AppendIndexOffSize uses.
+func IndexOffSize(items [][]byte, min int) int {
 	total := 1
 	for _, it := range items {
 		total += len(it)
@@ -50,6 +53,20 @@ func AppendIndex(buf []byte, items [][]byte) []byte {
 	for total >= 1<<(8*offSize) {
 		offSize++
 	}
+	if min > offSize && min <= 4 {
+		offSize = min
+	}
+	return offSize
+}
+
+// AppendIndexOffSize appends an INDEX whose offSize is at least min.
+func AppendIndexOffSize(buf []byte, items [][]byte, min int) []byte {
+	n := len(items)
+	buf = append(buf, byte(n>>8), byte(n))
+	if n == 0 {
+		return buf
+	}
+	offSize := IndexOffSize(items, min)
 	buf = append(buf, byte(offSize))
 	off := 1
 	put := func(v int) {
@@ -190,10 +207,11 @@ func Build(s Spec) []byte {
 	}
 
 	out := []byte{1, 0, 4, 4}
+	AppendIndex := func(buf []byte, items [][]byte) []byte { return AppendIndexOffSize(buf, items, s.IndexOffSize) }
 	out = AppendIndex(out, [][]byte{[]byte(name)})
 	topIndexPos := len(out)
 	out = AppendIndex(out, [][]byte{top})
-	topPos := topIndexPos + 2 + 1 + 2*1 // count, offSize, two offsets (offSize 1: a Top DICT is < 255 bytes)
+	topPos := topIndexPos + 2 + 1 + 2*IndexOffSize([][]byte{top}, s.IndexOffSize) // count, offSize, two offsets
 	if len(top)+1 >= 256 {
 		panic("refcff: top dict too long")
 	}
@@ -264,6 +282,9 @@ func Build(s Spec) []byte {
 		offSize := 1
 		for 11*len(privs)+1 >= 1<<(8*offSize) {
 			offSize++
+		}
+		if s.IndexOffSize > offSize && s.IndexOffSize <= 4 {
+			offSize = s.IndexOffSize
 		}
 		dataStart := fdArrayPos + 2 + 1 + offSize*(len(privs)+1)
 		for i := range privs {
